@@ -201,17 +201,96 @@ Definition spec_ok (g : graph) (r : run) : bool :=
                               end
                             end) (r_refs r)) all_cls.
 
+(* ---- deviations from the Spec that the recorded defects do not explain.
+   The model mirrors the code with its recorded defects; wherever the model itself differs from the
+   Spec, a difference between the implementation and the Spec is the known deviation.  Wherever
+   the model AGREES with the Spec (a name it resolves as Fortran does, or leaves out as Fortran
+   does), the implementation must agree too: otherwise the input is a failing input whatever
+   region it lies in. *)
+(* exact tables: for every name of any of the three, model = Spec -> impl = Spec *)
+Definition table_is_x (t m : table) (l : list (str * ent)) : bool :=
+  forallb (fun n => negb (opt_eqb ent_eqb (assoc_get n m) (lookup n l))
+                    || opt_eqb ent_eqb (assoc_get n t) (lookup n l))
+          (map fst t ++ map fst m ++ map fst l).
+(* lower bounds: an entry both the model and the Spec demand must be there *)
+Definition table_has_x (t : table) (m l : list (str * ent)) : bool :=
+  forallb (fun kv => negb (opt_eqb ent_eqb (lookup (fst kv) m) (Some (snd kv)))
+                     || match assoc_get (fst kv) t with Some e => ent_eqb e (snd kv) | None => false end) l.
+
+Definition spec_ok_x (g : graph) (r : run) : bool :=
+  negb (r_exc r)
+  && forallb (fun c =>
+       let st := correlate_all c g (r_order r) in
+       forallb (fun o => match find_module g (o_name o) with
+                         | None => false
+                         | Some M =>
+                           (negb (o_is_module o)
+                            || table_is_x (nth_tab (o_pub o) (cls_idx c)) (fst (st_tabs st M)) (accessible c g M))
+                           && (if shared_with_nested M c
+                               then table_has_x (nth_tab (o_all o) (cls_idx c))
+                                                (unleaked c g (r_order r) M (snd (st_tabs st M)))
+                                                (unleaked c g (r_order r) M (scope c g M))
+                               else table_is_x (nth_tab (o_all o) (cls_idx c)) (snd (st_tabs st M)) (scope c g M))
+                         end) (r_units r)
+       && forallb (fun q => match find_module g (q_unit q) with
+                            | None => false
+                            | Some M =>
+                              match find_nested M (q_path q) with
+                              | None => false
+                              | Some Sc => negb (nested_clear g M Sc)
+                                          || negb (functional_b (nested_lower_model c g (r_order r) M Sc))
+                                          || table_has_x (nth_tab (q_all q) (cls_idx c))
+                                                         (unforeign c g (r_order r) M Sc (nested_lower_model c g (r_order r) M Sc))
+                                                         (unforeign c g (r_order r) M Sc (nested_lower_spec c g M Sc))
+                              end
+                            end) (r_nested r)
+       && forallb (fun f => negb (cls_eqb (f_cls f) c) ||
+                            match find_module g (f_unit f) with
+                            | None => false
+                            | Some M =>
+                              match f_path f with
+                              | [] =>
+                                let m := assoc_get (f_id f) (snd (st_tabs st M)) in
+                                let sp := lookup (f_id f) (scope c g M) in
+                                negb (opt_eqb ent_eqb m sp)
+                                || match sp with
+                                   | Some e => (shared_with_nested M c && str_in (f_id f) (leak_names c g (r_order r) M))
+                                               || opt_eqb ent_eqb (Some e) (f_ent f)
+                                   | None => match f_ent f with
+                                             | None => true
+                                             | Some _ => shared_with_nested M c
+                                             end
+                                   end
+                              | _ => match find_nested M (f_path f) with
+                                     | None => false
+                                     | Some Sc =>
+                                       negb (nested_clear g M Sc)
+                                       || negb (functional_b (nested_lower_model c g (r_order r) M Sc))
+                                       || match lookup (f_id f) (unforeign c g (r_order r) M Sc (nested_lower_spec c g M Sc)) with
+                                          | Some e =>
+                                            negb (opt_eqb ent_eqb (lookup (f_id f) (unforeign c g (r_order r) M Sc
+                                                                            (nested_lower_model c g (r_order r) M Sc))) (Some e))
+                                            || opt_eqb ent_eqb (Some e) (f_ent f)
+                                          | None => true
+                                          end
+                                     end
+                              end
+                            end) (r_refs r)) all_cls.
+
 Definition region_bits (g : graph) : nat :=
   (if region_rename g then 1 else 0) + (if region_private g then 2 else 0)
   + (if region_only_empty g then 4 else 0) + (if region_only_dup g then 8 else 0)
   + (if region_uncounted g then 16 else 0).
 
 (* acyclic = the toposort model succeeds; the Spec is only asked about legal programs (region
-   value 32 marks the programs that are not: ambiguous identifiers, cycles, self use) *)
+   value 32 marks the programs that are not: ambiguous identifiers, cycles, self use).
+   bit 1: the implementation differs from the Spec where the model agrees with the Spec;
+   region value 64: the implementation differs from the Spec somewhere (explained or not). *)
 Definition judge_run (g0 : graph) (r : run) : nat :=
   let g := reorder (map lower_module g0) (map lower (r_files r)) in
   let legal := wf_graph g && match toposort g with Some _ => true | None => false end in
-  verdict (negb (model_ok g r)) (legal && negb (spec_ok g r)) (region_bits g + (if legal then 0 else 32)).
+  verdict (negb (model_ok g r)) (legal && negb (spec_ok_x g r))
+          (region_bits g + (if legal then 0 else 32) + (if legal && negb (spec_ok g r) then 64 else 0)).
 Definition judge (c : case) : nat := fold_left Nat.lor (map (judge_run (fst c)) (snd c)) 0.
 
 (* short constructors for runs *)
